@@ -227,6 +227,7 @@ def w_main(days: int, s0: int, s1: int, s2: int, clock: int, kind: int) -> str:
 
 def w_quick(days: int, s0: int, clock: int, kind: int) -> str:
     """
+    pre: PARTITION is None or days == PARTITION
     pre: 0 <= days < 5 and 0 <= s0 < 16 and 0 <= clock < 3 and 0 <= kind < 6
     post: _ == ''
     """
@@ -243,7 +244,7 @@ def obligations(tier):
            encodes=['DeleteAccordingDate.ok_to_delete', 'parse_deletion_date', 'ParseTrashInfo.parse_trashinfo', 'older_than'],
            bounds='DAYS absent or 0..400 symbolic; 10 DeletionDate line shapes; now within +-3 s of the limit (symbolic)',
            stubs=['content reader', 'clock']),
-        CH('W_slots_quick', MOD, 'w_quick', timeout=600, engine='W', regime='selector', encodes=K.EMPTY_FUNCS, stubs=K.STUBS,
+        CH('W_slots_quick', MOD, 'w_quick', timeout=600, partitions=list(range(5)), engine='W', regime='selector', encodes=K.EMPTY_FUNCS, stubs=K.STUBS,
            bounds='5 DAYS x 16 date slots (x2 derived neighbours) x 3 clock sources x 6 kinds'),
     ]
     if tier == 'thorough':
